@@ -81,6 +81,7 @@ Definition to_wire (k : kind) (g : gval) : res val :=
   | KInt w, GInt z => Ok (VF (FInt w (Z.to_N z)))
   | KStr, GStr s => Ok (VF (FStr s))
   | KData, GBytes d => Ok (VF (FData d))
+  | KData, GBuf n => Ok (VF (FData (repeat 0%N (Z.to_nat n))))   (* a fresh buffer is all zeros *)
   | KStrs, GStrs l => Ok (VF (FStrs l))
   | KQid, GQid q => Ok (VF (FQid q))
   | KQids, GQids l => Ok (VF (FQids l))
